@@ -48,7 +48,50 @@ class EncHooks(C04.ParserHooks):
             st.extent[list(b.t)[0][0]] = n
 
 
+def float_bits(R, P):
+    """HEADS/float-bits: cbor_encode_single / cbor_encode_double hand the value's own bit pattern to the head writer: every
+    definition of the argument derives from the `value` parameter (union pun or memcpy) - no constant is substituted for some
+    values (a NaN rewritten as another bit pattern decodes as a different number)."""
+    for name, inner in (("cbor_encode_single", "_cbor_encode_uint32"), ("cbor_encode_double", "_cbor_encode_uint64")):
+        f = P.fn(name)
+        if f is None:
+            continue
+        pn = f.params[0]["n"]
+        cs = f.calls(inner)
+        if not R.require(len(cs) >= 1, "%s: call of %s not found" % (name, inner)):
+            continue
+
+        def from_value(n_):
+            return any(y["k"] == "var" and y["n"] == pn for y in f.walk(n_, follow_refs=True))
+        bad = []
+        for c in cs:
+            a0 = RU.uncast(f, RU.arg(f, c.node, 0))
+            if a0 is not None and a0["k"] == "var" and a0.get("sc") == "local":
+                defs = []
+                for b in f.blocks.values():
+                    for el in b.elems:
+                        for x in f.walk(el):
+                            if x["k"] == "decl":
+                                defs += [v["init"] for v in x["vars"] if v["n"] == a0["n"] and v.get("init") is not None]
+                            elif x["k"] == "bin" and x["op"] in ("=", "|=", "&=", "^=", "+=", "-=") and (f.d(x["a"][0]) or {}).get("k") == "var" and f.d(x["a"][0])["n"] == a0["n"]:
+                                defs.append(x["a"][1])
+                copies = [e for e in f.calls({"memcpy", "__builtin_memcpy", "__builtin___memcpy_chk"}) if (RU.strip_addr(f, RU.arg(f, e.node, 0)) or {}).get("n") == a0["n"]]
+                for d_ in defs:
+                    if not from_value(d_):
+                        bad.append(f.show(d_)[:40])
+                for e in copies:
+                    if not from_value(RU.arg(f, e.node, 1)):
+                        bad.append(f.show(e.node)[:40])
+                if not defs and not copies:
+                    bad.append("no definition of %s" % a0["n"])
+            elif a0 is None or not from_value(a0):
+                bad.append(f.show(a0)[:40] if a0 is not None else "?")
+        R.check(not bad, "HEADS", "%s:writes-the-values-own-bits" % name, "%s()" % name, "the argument of %s is the parameter's bit pattern on every path" % inner,
+                "%s substitutes %s for the value's own bits on some path: such values (NaNs, by the look of it) are written as another number" % (name, bad))
+
+
 def heads(R, P):
+    float_bits(R, P)
     widths = {}
     for name in ("_cbor_encode_uint8", "_cbor_encode_uint16", "_cbor_encode_uint32", "_cbor_encode_uint64", "_cbor_encode_uint"):
         f = P.fn(name)
